@@ -424,3 +424,128 @@ func ruleBuilderErrors(r *Run) {
 	inv.Trivial = true
 	inv.Check(n >= 20, "-", fmt.Sprintf("%d builders", n), fmt.Sprintf("only %d builders found, floor 20", n))
 }
+
+// ruleCallDerivedBounds (PF-BOUNDS): an index or slice bound that is computed from the result of a
+// search-like call (strings.Index*, regexp Find*Index, utf8 decoding, ...: functions that report
+// "not found" as -1 or hand out offsets) is used only under a test of that value against a
+// constant (>= 0, != -1, < 0 -> leave) or against a length. Unchecked, a miss indexes with -1 and panics.
+func ruleCallDerivedBounds(r *Run, rels []string) {
+	p := r.P
+	o := r.Ob("PF-BOUNDS", "indexes from search results", "an index or slice bound derived from a search result (which is -1 when nothing was found) is used only under a test of that value")
+	n, bad := 0, false
+	// the search-like origin of a bound: the call (or element of a call's result) it is computed from
+	var origin func(v ssa.Value, depth int) ssa.Value
+	origin = func(v ssa.Value, depth int) ssa.Value {
+		if v == nil || depth > 8 {
+			return nil
+		}
+		switch x := v.(type) {
+		case *ssa.Const, *ssa.Parameter, *ssa.Phi:
+			return nil
+		case *ssa.Convert:
+			return origin(x.X, depth+1)
+		case *ssa.BinOp:
+			if a := origin(x.X, depth+1); a != nil {
+				return a
+			}
+			return origin(x.Y, depth+1)
+		case *ssa.Extract:
+			return origin(x.Tuple, depth+1)
+		case *ssa.UnOp:
+			if x.Op == token.MUL {
+				if ia, ok := x.X.(*ssa.IndexAddr); ok {
+					// an element of a slice that a call returned (offset tables)
+					if c, ok := unspill(ia.X).(*ssa.Call); ok && searchLike(c) {
+						return x
+					}
+				}
+				if al, ok := x.X.(*ssa.Alloc); ok {
+					for _, st := range storesTo(al) {
+						if a := origin(st.Val, depth+1); a != nil {
+							return a
+						}
+					}
+				}
+			}
+			return nil
+		case *ssa.Call:
+			if searchLike(x) {
+				return x
+			}
+		}
+		return nil
+	}
+	guarded := func(at *ssa.BasicBlock, src ssa.Value) bool {
+		for _, f := range factsAt(at) {
+			b, ok := f.Cond.(*ssa.BinOp)
+			if !ok {
+				continue
+			}
+			for _, side := range []ssa.Value{b.X, b.Y} {
+				if side == src || origin(side, 0) == src {
+					return true
+				}
+			}
+		}
+		return false
+	}
+	for _, fn := range p.SrcFuncs() {
+		pk := fn.Pkg
+		if pk == nil && fn.Parent() != nil {
+			pk = fn.Parent().Pkg
+		}
+		in := false
+		for _, rel := range rels {
+			if pk != nil && pk.Pkg.Path() == modPath+"/"+rel {
+				in = true
+			}
+		}
+		if !in {
+			continue
+		}
+		allInstrs(fn, func(ins ssa.Instruction) {
+			var bounds []ssa.Value
+			switch x := ins.(type) {
+			case *ssa.Slice:
+				bounds = append(bounds, x.Low, x.High, x.Max)
+			case *ssa.IndexAddr:
+				bounds = append(bounds, x.Index)
+			case *ssa.Index:
+				bounds = append(bounds, x.Index)
+			default:
+				return
+			}
+			for _, bv := range bounds {
+				src := origin(bv, 0)
+				if src == nil {
+					continue
+				}
+				n++
+				if !guarded(ins.Block(), src) {
+					bad = true
+					o.Fail(r.pos(ins.Pos()), "%s indexes with %s, derived from the search result %s, without a test of that value: a miss (-1) panics", shortFuncName(fn), describe(bv, 1), describe(src, 1))
+				}
+			}
+		})
+	}
+	r.count("search_derived_bounds", n)
+	if !bad {
+		o.OK("%d index/slice bound(s) derived from search results, each under a test of the value", n)
+	}
+}
+
+// searchLike: functions whose integer results are positions that may be -1 / out of range.
+func searchLike(c *ssa.Call) bool {
+	pk, nm := calleePkgName(c)
+	switch pk {
+	case "strings", "bytes":
+		return strings.HasPrefix(nm, "Index") || strings.HasPrefix(nm, "LastIndex")
+	case "regexp":
+		return strings.HasSuffix(nm, "Index")
+	case "slices":
+		return nm == "Index" || nm == "IndexFunc" || nm == "BinarySearch"
+	case "sort":
+		return strings.HasPrefix(nm, "Search")
+	}
+	return false
+}
